@@ -106,6 +106,10 @@ def enc_token(tok, tid):
         return h + b"\r\n"
     if k == "Y":
         return bytes([ALPHA[tid]]) * tok[1]
+    if k == "N":        # a bodiless answer (204); tok[1] = 1: Connection: close, 2: HTTP/1.0 without keep-alive
+        if tok[1] == 2:
+            return b"HTTP/1.0 204 No Content\r\nX-M: %d\r\n\r\n" % tid
+        return b"HTTP/1.1 204 No Content\r\nX-M: %d\r\n%s\r\n" % (tid, b"Connection: close\r\n" if tok[1] else b"")
     if k == "U":        # a head without any framing: the body (if any) is delimited by the connection close
         return b"HTTP/1.1 200 OK\r\nX-M: %d\r\nServer: x\r\n\r\n" % tid
     if k == "J":
@@ -121,7 +125,7 @@ def tok_str(tok, tid):
         return f"H:{tid}:{0 if tok[3] else tok[1]}:{int(bool(tok[2]))}:{int(bool(tok[3]))}"
     if k == "Y":
         return f"Y:{tid}:{tok[1]}"
-    return f"{k}:{tid}"      # J, Q (model tokens) and U (oracle-only histories)
+    return f"{k}:{tid}"      # J, Q (model tokens) and U, N (oracle-only histories)
 
 
 class Sim:
@@ -166,6 +170,9 @@ class Sim:
         self.exc_log: list = []
         self.keep: list = []
         self.conn_rue: dict = {}        # c -> the current parser reads an unframed body until EOF
+        self.conn_head: dict = {}       # c -> the request in flight is a HEAD (responses carry no body)
+        self.req_start: dict = {}       # c -> offset in the transport's output where the current request starts
+        self.up_events: dict = {}       # k -> event that lets the request body generator go on
         self.fingerprints = [aiohttp.Fingerprint(fp) for fp in FP]
 
         class Traced(ResponseHandler):
@@ -240,7 +247,16 @@ class Sim:
                 kwc["keepalive_timeout"] = case["keepalive"]
             conn = Connector(force_close=bool(case.get("force_close")), resolver=aiohttp.ThreadedResolver(), use_dns_cache=False, **kwc)
             conn._factory = lambda: Traced(loop=sim.loop)
-            return conn, aiohttp.ClientSession(connector=conn)
+            kws = {}
+            if case.get("trace_yield"):
+                tc = aiohttp.TraceConfig()
+
+                async def on_reuse(session, ctx, params):
+                    await asyncio.sleep(0)
+
+                tc.on_connection_reuseconn.append(on_reuse)
+                kws["trace_configs"] = [tc]
+            return conn, aiohttp.ClientSession(connector=conn, **kws)
 
         try:
             self.connector, self.session = self.loop.run_until_complete(mk())
@@ -312,7 +328,16 @@ class Sim:
         c = self.index_of(conn.protocol)
         spec = self.spec_of_task()
         self.exch_conn[e] = c
+        prev = self.owner.get(c)
+        if prev is not None and prev != e:
+            self.violations.append(("reuse:held", f"connection {c} handed to exchange {e} (request {self.req_of[e]}) while exchange {prev} still holds it"))
         self.owner[c] = e
+        if not fresh:
+            written = bytes(self.trs[c].buf[self.req_start.get(c, 0):])
+            head = written.split(b"\r\n\r\n", 1)[0].lower()
+            if b"transfer-encoding: chunked" in head and not written.endswith(b"0\r\n\r\n"):
+                self.violations.append(("reuse:upload-cut", f"connection {c} handed to exchange {e} although the chunked body of the previous request on it was never terminated"))
+        self.req_start[c] = len(self.trs[c].buf)
         if not fresh:
             self.reused += 1
             # oracle: a dirty connection must not be handed out again; same key
@@ -327,6 +352,9 @@ class Sim:
             if diff:
                 self.violations.append(("key:" + ",".join(diff), f"connection {c} created for {a} reused for {b}"))
         self.prog[c] = None
+        if fresh:
+            self.conn_rue[c] = not (spec.get("ws") or spec.get("rue", 1) == 0)
+            self.conn_head[c] = bool(spec.get("head"))
         self.log(f"C.{e}.{self.keycodes(spec)}")
         if fresh and spec.get("early"):
             self.send(c, spec["early"])
@@ -338,6 +366,7 @@ class Sim:
             self.par_rem[c] = 0         # a new parser starts at a head (the first one replays _tail)
         spec = self.reqs[self.req_of[self.owner[c]]] if self.req_of.get(self.owner.get(c)) is not None else {}
         self.conn_rue[c] = not (spec.get("ws") or spec.get("rue", 1) == 0)
+        self.conn_head[c] = bool(spec.get("head"))
         self.log(f"P.{self.owner.get(c)}")
 
     def on_release(self, c, pooled):
@@ -381,7 +410,7 @@ class Sim:
             if self.par_rem[c] > 0 and tok[0] != "Y":
                 continue
             if tok[0] == "H" and not tok[3]:
-                self.par_rem[c] = tok[1]
+                self.par_rem[c] = 0 if self.conn_head.get(c) else tok[1]
             elif tok[0] == "U":
                 if self.conn_rue.get(c, True):
                     self.par_rem[c] = 10 ** 9       # everything up to the close is body
@@ -430,6 +459,16 @@ class Sim:
             return                      # (unread) close-delimited body; the connection is dirty at release anyway
         if p is None and k == "U":
             self.prog[c] = "until-close"
+            return
+        if p is None and k == "N":
+            self.prog[c] = "done"
+            if tok[1]:
+                self.mark(c, "close-announced", tid)
+            return
+        if p is None and k == "H" and not tok[3] and self.conn_head.get(c):
+            self.prog[c] = "done"
+            if tok[2]:
+                self.mark(c, "close-announced", tid)
             return
         if p is None:
             if k == "H":
@@ -495,6 +534,18 @@ class Sim:
             if spec.get("ws"):
                 # a WebSocket handshake the origin never accepts: ws_connect passes read_until_eof=False
                 resp = (await self.session.ws_connect(url, **kw))._response
+            elif spec.get("head"):
+                resp = await self.session.head(url, **kw)
+            elif spec.get("upload"):
+                # a streamed (chunked) request body whose second chunk waits for the "upgo" stimulus
+                ev = self.up_events.setdefault(k, asyncio.Event())
+
+                async def body():
+                    yield b"u" * 3
+                    await ev.wait()
+                    yield b"v" * 2
+
+                resp = await self.session.post(url, data=body(), **kw)
             else:
                 resp = await self.session.get(url, **kw)
         except BaseException as ex:  # noqa
@@ -563,6 +614,12 @@ class Sim:
             self.mark(c, "peer-closed")
             self.trs[c].close()
             return True
+        if op == "upgo":
+            k = st[1]
+            if k in self.up_events and not self.up_events[k].is_set():
+                self.up_events[k].set()
+                return True
+            return False
         if op == "advance":
             if self.advanced + st[1] > 200:      # stay clear of the 300 s total timeout
                 return False
@@ -605,6 +662,11 @@ class Sim:
             self.ptime.__exit__(None, None, None)
             with warnings.catch_warnings():
                 warnings.simplefilter("ignore")
+                for r in self.keep:
+                    try:
+                        r.close()
+                    except Exception:  # noqa
+                        pass
                 self.loop.run_until_complete(self.session.close())
                 self.loop.run_until_idle()
         finally:
@@ -861,6 +923,55 @@ def ext_structured_cases():
             hist += [["run"], ["data", 0, ans], ["data", 1, ans], ["run"], ["req", 2], ["run"],
                      ["data", 0, ans], ["data", 1, ans], ["data", 2, ans], ["run"]]
             out.append({"force_close": 0, "reqs": reqs, "hist": hist, "label": f"peof/{gap}/{after}"})
+    # 4. tracing: an on_connection_reuseconn callback that yields, several idle connections under one key,
+    #    concurrent requests for that key
+    for nidle in (2, 3):
+        for wave in (2, 3):
+            n = nidle + 2 * wave
+            reqs = [base_req() for _ in range(n)]
+            hist = []
+            for k in range(nidle):
+                hist += [["req", k]]
+            hist += [["run"]]
+            for c in range(nidle):
+                hist += [["data", c, ans]]
+            hist += [["run"]]
+            k = nidle
+            for _ in range(2):
+                for j in range(wave):
+                    hist += [["req", k + j]]
+                hist += [["run"]]
+                for c in range(n):
+                    hist += [["data", c, ans]]
+                hist += [["run"]]
+                k += wave
+            out.append({"force_close": 0, "trace_yield": 1, "reqs": reqs, "hist": hist, "label": f"trace-yield/{nidle}/{wave}"})
+    # 5. a streamed request body that the client gives up after an early, complete answer
+    for after in ("read", "hold", "release"):
+        for go in (0, 1, 2):
+            reqs = [base_req(upload=1, after="hold" if after == "hold" else after), base_req(), base_req()]
+            hist = [["req", 0], ["run"]]
+            if go == 1:
+                hist += [["upgo", 0], ["run"]]
+            hist += [["data", 0, [["H", 2, 0, 0], ["Y", 2]]], ["run"]]
+            if after == "hold":
+                hist += [["cmd", 0, "read"], ["run"]]
+            if go == 2:
+                hist += [["upgo", 0], ["run"]]
+            hist += [["req", 1], ["run"], ["data", 0, ans], ["data", 1, ans], ["run"],
+                     ["req", 2], ["run"], ["data", 0, ans], ["data", 1, ans], ["data", 2, ans], ["run"]]
+            out.append({"force_close": 0, "reqs": reqs, "hist": hist, "label": f"upload/{after}/{go}"})
+    # 6. answers without a body (204, HEAD) that announce the close; the next request comes before any FIN
+    for first, tok in (({}, ["N", 1]), ({}, ["N", 2]), ({}, ["N", 0]), ({"head": 1}, ["H", 5, 1, 0]),
+                       ({"head": 1}, ["H", 5, 0, 0]), ({"head": 1}, ["N", 1])):
+        for after in ("read", "hold"):
+            reqs = [base_req(after=after, **first), base_req(), base_req()]
+            hist = [["req", 0], ["run"], ["data", 0, [tok]], ["run"]]
+            if after == "hold":
+                hist += [["cmd", 0, "release"], ["run"]]
+            hist += [["req", 1], ["run"], ["data", 0, ans], ["data", 1, ans], ["run"],
+                     ["req", 2], ["run"], ["data", 0, ans], ["data", 1, ans], ["data", 2, ans], ["run"]]
+            out.append({"force_close": 0, "reqs": reqs, "hist": hist, "label": f"bodiless/{first}/{tok}/{after}"})
     return out
 
 
@@ -884,6 +995,10 @@ def random_case(rng, ext=False):
                 r["rue"] = 0
             elif x < 0.27:
                 r["ws"] = 1
+            elif x < 0.35:
+                r["head"] = 1
+            elif x < 0.41:
+                r["upload"] = 1
         reqs.append(r)
     hist = []
     started = 0
@@ -917,8 +1032,11 @@ def random_case(rng, ext=False):
             if rng.random() < 0.8:
                 hist.append(["run"])
         elif ext and x < 0.93 and ntr:
-            if rng.random() < 0.7:
+            y = rng.random()
+            if y < 0.55:
                 hist.append(["advance", rng.choice([1, 4, 5, 6, 9, 10, 11, 15, 16])])
+            elif y < 0.70:
+                hist.append(["upgo", rng.randrange(max(started, 1))])
             else:
                 hist.append(["peof", rng.randrange(ntr)])
                 if rng.random() < 0.5:
@@ -929,6 +1047,8 @@ def random_case(rng, ext=False):
     case = {"force_close": int(rng.random() < 0.06), "reqs": reqs, "hist": hist}
     if ext:
         case["keepalive"] = rng.choice([15, 15, 10, 6, 30])
+        if rng.random() < 0.3:
+            case["trace_yield"] = 1
     return case
 
 
@@ -950,8 +1070,10 @@ def rand_tokens(rng, rem, fresh=False, ext=False):
                 toks.append(["Y", rem + rng.randint(1, 2)])    # longer than announced
                 rem = 0
         else:
-            if ext and x < 0.10:
+            if ext and x < 0.06:
                 toks.append(["U"])
+            elif ext and x < 0.14:
+                toks.append(["N", rng.choice([0, 0, 1, 2])])
             elif x < 0.70:
                 blen = rng.choice([0, 0, 1, 2, 3, 5])
                 close = int(rng.random() < 0.12)
@@ -1050,13 +1172,14 @@ def run(ctx):
 
 
 def is_ext(case):
-    if case.get("keepalive") or any(r.get("ws") or r.get("rue", 1) == 0 for r in case["reqs"]):
+    if case.get("keepalive") or case.get("trace_yield") or \
+            any(r.get("ws") or r.get("rue", 1) == 0 or r.get("head") or r.get("upload") for r in case["reqs"]):
         return True
     for r in case["reqs"]:
-        if any(t[0] == "U" for t in r.get("early", [])):
+        if any(t[0] in ("U", "N") for t in r.get("early", [])):
             return True
     for st in case["hist"]:
-        if st[0] in ("advance", "peof") or (st[0] == "data" and any(t[0] == "U" for t in st[2])):
+        if st[0] in ("advance", "peof", "upgo") or (st[0] == "data" and any(t[0] in ("U", "N") for t in st[2])):
             return True
     return False
 
